@@ -30,8 +30,7 @@ EXPECTED = [
 
 
 def build(S, tier, seed):
-    act = _base(S)
-    S.verify(put.MakeTrashinfoData(), active=[put.ForFile().key] + act)
+    act = put.leaf_vcs(S)
     put.trash_file_in_vc(S, conservation=False)
     put.trash_file_vc(S)
     put.trash_single_vc(S)
